@@ -31,6 +31,10 @@ func Catalogue(prop, tier string) []Cfg {
 		add(pc("v2", []uint{2, 1}, 2, "fair", []int{1}, []int{3, 1}, "rr", ""))
 		add(pc("v2", []uint{3, 2, 1}, 3, "fair", []int{2}, []int{2}, "rr", "preclosed"))
 		add(pc("v2", []uint{3, 2, 1}, 4, "rate", []int{2}, []int{2, 1, 1}, "rr", "preclosed"))
+		// priority value 0 (legal map key) and a single priority
+		add(pc("v2", []uint{1, 0}, 2, "fair", []int{2}, []int{2, 1}, "rr", ""))
+		add(pc("v1", []uint{1, 0}, 2, "fair", []int{2}, []int{1, 2}, "rr", ""))
+		add(pc("v2", []uint{5}, 2, "rate", []int{0}, []int{3}, "rr", ""))
 		// v2, handler pool (README style), one handler more than capacity
 		add(pc("v2", []uint{2, 1}, 2, "fair", []int{2}, []int{2}, "pool", ""))
 		add(pc("v2", []uint{2, 1}, 2, "rate", []int{2}, []int{2, 1}, "pool", "extra"))
@@ -392,6 +396,7 @@ func Catalogue(prop, tier string) []Cfg {
 					add(jc(disc, j, false, 1, 2*j+1, 0, 0, nil, nil, nil))
 				}
 				add(jc(disc, 2, true, 0, 5, 0, 0, nil, nil, nil))
+				add(jc(disc, 2, false, 1, 5, -3, 25, []int64{0, 4}, []int64{0, 2}, nil)) // negative timeout: wait for ever
 				add(jc(disc, 2, false, 1, 4, 4, 25, []int64{0, 1, 5}, []int64{0, 2}, nil))
 				add(jc(disc, 3, false, 1, 5, 4, 50, []int64{0, 3, 5}, []int64{0}, nil))
 				add(jc(disc, 2, true, 1, 4, 3, 100, []int64{0, 2, 4}, []int64{0}, []int64{0, 4}))
@@ -551,6 +556,8 @@ func Catalogue(prop, tier string) []Cfg {
 		rc("v1", func(c *Cfg) { c.N = []int{1}; c.Script = 1 })
 		rc("v1", func(c *Cfg) { c.N = []int{1}; c.Stop = "stop"; c.OutCap, c.FbCap = 1, 1 })
 		rc("v1", func(c *Cfg) { c.N = []int{1}; c.Stop = "cancel" })
+		rc("v1", func(c *Cfg) { c.N = []int{1}; c.Script = 2 })
+		rc("v1", func(c *Cfg) { c.N = []int{1}; c.Stop = "both" })
 		rc("s1", func(c *Cfg) { c.N = []int{1} })
 		rc("s1", func(c *Cfg) { c.N = []int{1}; c.Stop = "stop" })
 		rc("s1", func(c *Cfg) { c.N = []int{1}; c.Stop = "cancel" })
